@@ -1,9 +1,11 @@
 SPECIFICATION Spec
 CONSTANT NAtoms = 3
-CONSTANT MTypes = {"C", "P", "X"}
-CONSTANT MOccs = {100, 50, 0}
-CONSTANT MGaps = {100, 200}
+CONSTANT MTypes = {"C", "P"}
+CONSTANT MOccs = {100, 0}
+CONSTANT MGaps = {100}
 CONSTANT MNuc1 = {TRUE}
+CONSTANT MLastFixed = TRUE
+CONSTANT MMidRes = {2}
 CONSTANT OccDefault = "none_only"
 CONSTANT ChainFoldReads = "chain_map"
 CONSTANT CsvMetadataArg = "file"
